@@ -29,6 +29,8 @@ def items(tier):
     exprs += [L.Rot(L.C2, ang, around=[1, 0]) for ang in L.ANGLES] + [L.Rot(L.TSL, L.aff(0, t=2.3))]
     exprs += [L.B(a) for a in L.leaves2(tier)[:8]] + [L.B(L.Rot(L.SQ, 0.5)), L.B(L.Cut(L.SQ, L.G_C)), L.BL(L.I_MOVE), L.BR(L.I_GROW)]
     exprs += [L.Pt([0.3, 0.4]), L.Pt([L.aff(0, t=1), 0.5])]
+    # unions whose operands have a lower dimension than their space (lines, end points, points)
+    exprs += L.lowdim_unions(tier)
     return [{"name": G.show(a), "ast": a, "tier": tier} for a in L.dedupe(exprs)]
 
 
@@ -92,7 +94,11 @@ def run_item(item):
             cand = []
             s = (np.arange(64) + 0.5) / 64
             for lf, maps in G.leaves(inner):
-                p = G.boundary_points(lf, row, s)
+                if lf["k"] == "point":
+                    pv = lf["p"]
+                    p = (G.evv(pv, row, 1) if isinstance(pv, list) and not G.is_aff(pv) else G.ev(pv, row, 1)[:, None])
+                else:
+                    p = G.boundary_points(lf, row, s)
                 for mp in reversed(maps):
                     p = G.pushforward(mp, p, {kk: np.broadcast_to(vv, (len(p), 1)) for kk, vv in row.items()})
                 cand.append(p)
